@@ -485,9 +485,7 @@ def _gen_config_program(rng, tier):
 
 def _gen_lifecycle_program(rng, tier):
     disabled = rng.choice(["unix_disabled", "unix_disabled", "django_disabled"])
-    cfg = gen_policy(rng, with_cats=False, disabled=disabled)
-    if cfg.get("deprecated") in (["auto"], "auto") or True:
-        pass
+    cfg = gen_policy(rng, with_cats=rng.random() < 0.35, disabled=disabled)  # (user categories with their own overrides)
     marker = rng.choice([None, None, "!", "*", "*LK*", "!!", "*NP*"]) if disabled == "unix_disabled" else None
     if marker:
         cfg["unix_disabled__marker"] = marker
@@ -505,7 +503,7 @@ def _gen_lifecycle_program(rng, tier):
     real = [s for s in cfg["schemes"] if s not in ("unix_disabled", "django_disabled")]
     users = []
     for i in range(rng.randint(1, 5)):
-        shape = rng.choice(["hash", "hash", "hash", "none", "empty", "bare_bang", "bare_star", "bang_hash", "star_hash", "django_style"])
+        shape = rng.choice(["hash", "hash", "hash", "none", "empty", "bare_bang", "bare_star", "bang_hash", "star_hash", "django_style", "maxlen"])
         users.append({"shape": shape, "scheme": rng.choice(real), "pw": rng.choice(PWS)})
     ops = []
     for _ in range(rng.randint(5, 30)):
